@@ -22,6 +22,8 @@ CLAIMED = {
              note='io::InputIterator over a live Reader (threads) is outside; items are raw 64-byte headers since the callbacks under test only receive references.', ref='§2 C20'),
  'C17': dict(text='Bounded symbolic model checking of the geometry factory and the WKB encoder: GeometryFactory driven with a logging implementation and with the real WKBFactoryImpl (WKB/EWKB, binary/hex, read back by an independent reader) on ways and areas whose locations are symbolic (valid, undefined, out of range, runs of duplicates) for {all, unique} x {forward, backward}: emitted coordinates, order, duplicate suppression, ring grouping, back-patched counts and the error class equal the reference; double2string under the C11 contract of snprintf.',
              note='Coordinates travel bit-for-bit through a projection that keeps the validity check of IdentityProjection (no floating point in the query); the decimal text of WKT/GeoJSON numbers depends on printf("%f") and is covered only through the snprintf contract model; Mercator projection is C18.', ref='§2 C17'),
+ 'C08': dict(text='Bounded symbolic model checking over fault sequences: the OS and zlib calls are scripted stubs whose return values and errno are symbolic within their documented contracts; reliable_write, NoCompressor and GzipCompressor (write, write, close, close; stdout and a regular descriptor; fsync yes/no) must hand every byte to write() in order, sync before close iff requested, never touch stdout, and turn every failing call into std::system_error / gzip_error while never failing spuriously.',
+             note='Writer, the write thread, futures and queues (schedules) are outside: only the sequential error path below them is decided; stub contracts (POSIX write on a regular file never returns 0 for count > 0; zlib return codes) are assumptions; at most 3-7 calls per scenario.', ref='§2 C08'),
 }
 NA = {
  'C19': 'The property is its schedule quantifier (lost wake-ups, FIFO under contention, exactly-once execution); bounded symbolic interleaving with cbmc did not finish a 2-thread toy monitor in 200 s here, and enumerating schedules would be a different technique family.',
